@@ -8,6 +8,8 @@ Line protocol of C10 (model `Model/Valset.lean`).
 Pure ops (stateless):  tx <chain> <vals>      en <powers>
 Stateful ops:          reset | stake <svals> | reg <v> <accts> | sup <c> | act <c> | rem <c>
                        build <now> <picks> | onchain <id> <c> | jit <c> <pick 0|1> | valset <id> <c>
+                       jitbus <c> <pick 0|1>   (SkywayBatchBuilt event: same update, error dropped)
+                       jiteb <c> <pick 0|1>    (end blocker with a fee-paying message queued for <c>)
 `build` answers `built <id> …`, `none …` (not worthy) or `panic …` (Go's `QuoInt(TotalShares)` divides
 by zero: `buildPanics`; the harness reports a panicking op the same way, with the state unchanged).
 -/
@@ -137,6 +139,14 @@ def step (d : State) (args : List String) : State × String :=
   | ["jit", c, p] =>
     match parseNat? c, parseNat? p with
     | some c, some p => withRes d (jit d.s c (p != 0))
+    | _, _ => (d, "bad-op")
+  | ["jitbus", c, p] =>
+    match parseNat? c, parseNat? p with
+    | some c, some p => withRes d (jitBus d.s c (p != 0), .ok)
+    | _, _ => (d, "bad-op")
+  | ["jiteb", c, p] =>
+    match parseNat? c, parseNat? p with
+    | some c, some p => withRes d (jitEndBlock d.s c (p != 0))
     | _, _ => (d, "bad-op")
   | ["valset", i, c] =>
     match parseNat? i, parseNat? c with
